@@ -15,12 +15,23 @@ from . import node as N
 from . import refcodec as R
 
 
+_port_rng = random.Random(os.getpid() * 7919 + int(time.time() * 1000) % 100003)
+
+
 def free_port():
-    s = socket.socket()
-    s.bind(("127.0.0.1", 0))
-    p = s.getsockname()[1]
-    s.close()
-    return p
+    """A port nobody listens on, taken below the ephemeral range so that listeners created with bind(0) by scenarios running
+    in parallel never land on it."""
+    for _ in range(200):
+        p = _port_rng.randrange(10000, 32000)
+        s = socket.socket()
+        try:
+            s.bind(("127.0.0.1", p))
+        except OSError:
+            continue
+        finally:
+            s.close()
+        return p
+    raise Timeout("no free port found")
 
 
 def open_fds():
@@ -364,11 +375,170 @@ def outbound_case(seed, role="client", submitters=3, per=40):
         return info
 
 
+def lifecycle_case(seed, role="client", cause="peer-disconnect", consumer=True):
+    """One way of ending a connection on the real loopback, then a restart of the same node object and a clean close."""
+    import struct
+    rng = random.Random(seed)
+    sc = RealScenario(role)
+    info = {"kind": "lifecycle", "seed": seed, "role": role, "cause": cause}
+    problems = []
+    try:
+        if cause == "refused":
+            from bromelia.setup import Diameter
+            sc.role = role = "client"
+            port = free_port()                      # nobody listens there
+            sc.node = Diameter(config=sc.config(port))
+            sc.node.start()
+        elif cause == "pre-ce-disconnect":
+            # server only: the peer connects and leaves before sending its CER
+            from bromelia.setup import Diameter
+            sc.role = role = "server"
+            port = free_port()
+            sc.node = Diameter(config=sc.config(port))
+            threading.Thread(target=sc.node.start, daemon=True, name="starter").start()
+            t_end = time.monotonic() + sc.deadline
+            while True:
+                sc.psock = socket.socket()
+                try:
+                    sc.psock.connect(("127.0.0.1", port))
+                    break
+                except OSError:
+                    sc.psock.close()
+                    if time.monotonic() > t_end:
+                        raise Timeout("node never listened")
+                    time.sleep(0.01)
+            time.sleep(rng.choice([0, 0.01, 0.2]))
+            sc.psock.close()
+            # the state is Closed all along: what must be observed is the release of threads and sockets
+            time.sleep(0.5)
+        else:
+            sc.open()
+        returned = threading.Event()
+        if cause in ("refused", "pre-ce-disconnect"):
+            consumer = False
+        if consumer and cause != "refused":
+            def blocked():
+                sc.node.get_message()
+                returned.set()
+            threading.Thread(target=blocked, daemon=True, name="blocked-consumer").start()
+            time.sleep(0.05)
+        if cause == "peer-dpr":
+            sc.psock.sendall(R.encode(N.dpr(hbh=71, e2e=72)))
+            (dpa,), _ = sc.recv_messages(1)
+            if N.name_of(dpa) != "DPA" or (dpa.hbh, dpa.e2e) != (71, 72):
+                problems.append("DPR answered with %s %r" % (N.name_of(dpa), (dpa.hbh, dpa.e2e)))
+        elif cause == "peer-disconnect":
+            sc.psock.close()
+        elif cause == "peer-reset-outbound":
+            from bromelia.base import DiameterMessage
+            big = [DiameterMessage.load(R.encode(N.app_request(300 + k, size=70000, host=N.LOCAL[0], realm=N.LOCAL[1], dest_realm=N.PEER[1])))[0] for k in range(12)]
+            sc.node._association.transport.sock.setsockopt(socket.SOL_SOCKET, socket.SO_SNDBUF, 4096)
+
+            def flood():
+                try:
+                    sc.node.send_messages(big)
+                except BaseException:
+                    pass                    # an error reported to the caller is fine; what is judged is the end state
+            threading.Thread(target=flood, daemon=True, name="flood").start()
+            time.sleep(rng.choice([0.01, 0.05, 0.2]))
+            sc.psock.setsockopt(socket.SOL_SOCKET, socket.SO_LINGER, struct.pack("ii", 1, 0))
+            sc.psock.close()
+        elif cause == "peer-reset":
+            sc.psock.setsockopt(socket.SOL_SOCKET, socket.SO_LINGER, struct.pack("ii", 1, 0))
+            sc.psock.close()
+        elif cause == "local-close":
+            sc.node.close()
+            (dpr,), _ = sc.recv_messages(1)
+            sc.psock.sendall(R.encode(N.dpa(hbh=dpr.hbh, e2e=dpr.e2e)))
+        sc.wait(lambda: sc.node.get_current_state() == "Closed", "Closed after %s" % cause)
+
+        def leftover():
+            return [t.name for t in threading.enumerate() if t not in sc.threads_before and t.is_alive() and not t.daemon]
+        try:
+            sc.wait(lambda: not leftover(), "threads", 20)
+        except Timeout:
+            problems.append("threads still alive after Closed: %s" % leftover())
+        if consumer and not returned.wait(10):
+            problems.append("a consumer blocked in get_message() did not return")
+        for so in (sc.psock, sc.lsock):
+            try:
+                if so:
+                    so.close()
+            except OSError:
+                pass
+        time.sleep(0.05)
+        extra = [f for f in open_fds() if f not in sc.fds_before and "eventpoll" not in f]
+        if extra:
+            problems.append("sockets still open after Closed: %s" % extra)
+        if problems:
+            info.update(result="violation", key="real-loopback-end-of-life:%s" % cause, detail="; ".join(problems))
+            return info
+        # ---- the same object starts again
+        sc.psock = sc.lsock = None
+        sc.buf = bytearray()
+        sc.ready = []
+        node = sc.node
+        if role == "client":
+            sc.lsock = socket.socket()
+            sc.lsock.setsockopt(socket.SOL_SOCKET, socket.SO_REUSEADDR, 1)
+            sc.lsock.bind(("127.0.0.1", node.config["PEER_NODE_PORT"]))
+            sc.lsock.listen()
+            node.start()
+            sc.lsock.settimeout(sc.deadline)
+            try:
+                sc.psock, _ = sc.lsock.accept()
+            except socket.timeout:
+                raise Timeout("restarted node never connected")
+            (cer,), _ = sc.recv_messages(1)
+            sc.psock.sendall(R.encode(N.cea(hbh=cer.hbh, e2e=cer.e2e, apps=[16777251])))
+        else:
+            threading.Thread(target=node.start, daemon=True, name="starter2").start()
+            t_end = time.monotonic() + sc.deadline
+            while True:
+                sc.psock = socket.socket()
+                try:
+                    sc.psock.connect(("127.0.0.1", node.config["LOCAL_NODE_PORT"]))
+                    break
+                except OSError:
+                    sc.psock.close()
+                    if time.monotonic() > t_end:
+                        raise Timeout("restarted node never listened")
+                    time.sleep(0.01)
+            sc.psock.sendall(R.encode(N.cer(apps=[16777251], hbh=21, e2e=22)))
+            sc.recv_messages(1)
+        sc.wait(lambda: node.is_open(), "restarted node open")
+        problems = sc.close_and_check()
+        if problems:
+            info.update(result="violation", key="real-loopback-teardown-after-restart:%s" % cause, detail="; ".join(problems))
+            return info
+        info.update(result="ok")
+        return info
+    except Timeout as ex:
+        info.update(result="timeout", detail=str(ex))
+        sc.abort()
+        return info
+    except Garbled as ex:
+        info.update(result="violation", key="real-loopback-outbound-stream-garbled", detail=str(ex))
+        sc.abort()
+        return info
+
+
+DEATHS = []
+
+
+def _excepthook(args):
+    import traceback
+    DEATHS.append("%s died with %s: %s" % (args.thread.name if args.thread else "?", args.exc_type.__name__,
+                                           "".join(traceback.format_tb(args.exc_traceback))[-300:]))
+
+
 def run_cases(acc, cases):
     """cases: [{'kind','seed','role',...}] executed one after another; a timeout is retried once, alone, before it counts."""
-    fn = {"inbound": inbound_case, "outbound": outbound_case}
+    threading.excepthook = _excepthook          # uncaught exceptions of the node's threads go into the report, not to stderr
+    fn = {"inbound": inbound_case, "outbound": outbound_case, "lifecycle": lifecycle_case}
     for c in cases:
         args = {k: v for k, v in c.items() if k != "kind"}
+        del DEATHS[:]
         r = fn[c["kind"]](**args)
         if r["result"] == "timeout":
             acc.counters["real_loopback_retries"] += 1
@@ -381,7 +551,10 @@ def run_cases(acc, cases):
             acc.counters["real_loopback_bytes"] += r.get("bytes", 0)
             acc.sigs.add("real/%s/%s/%s" % (c["kind"], c.get("role"), c["seed"]))
         elif r["result"] == "violation":
-            acc.violation(r["key"], r["detail"], {"real_case": c, "info": {k: v for k, v in r.items() if k != "detail"}})
+            acc.violation(r["key"], r["detail"], {"real_case": c, "info": {k: v for k, v in r.items() if k != "detail"}, "thread_deaths": list(DEATHS)})
         else:
-            acc.violation("real-loopback-never-completes", "twice in a row: %s" % r["detail"], {"real_case": c, "info": r})
+            acc.violation("real-loopback-never-completes", "twice in a row: %s%s" % (r["detail"], ("; " + DEATHS[0]) if DEATHS else ""),
+                          {"real_case": c, "info": r, "thread_deaths": list(DEATHS)})
+        if DEATHS:
+            acc.observe("real-loopback-thread-death:%s" % DEATHS[0].split(":")[0][:80])
         acc.sample({"real_loopback": {k: v for k, v in r.items() if k in ("kind", "role", "segmentation", "segments", "bytes", "peer_recv_size", "result")}}, limit=2)
